@@ -3,7 +3,7 @@
 (Repair/Semantics.v) on the same dumps; independent Python oracles."""
 from vlib import core, cfg
 
-BUDGET_MS = 2500          # recovery time budget given to the implementation (hook)
+BUDGET_MS = 1200          # recovery time budget given to the implementation (hook)
 CASE_TIMEOUT_MS = 40000   # watchdog per case line
 ONE_TIMEOUT_MS = 7000     # watchdog when a single input is re-run in isolation
 ONE_BUDGET_MS = 1500
@@ -27,6 +27,7 @@ class Inp:
         self.errors = []          # [pos, state, nseq, [seq...]] ; seq = list of step strings I<t> D<i> S<i>
         self.value = None         # 'acc <tree>' | 'none' | 'panic …' | 'lexerr' | 'hang'
         self.ms = 0
+        self.odd_lexemes = 0      # leaves that are faulty xor zero-length
         self.model = {}           # facts of the J section
         self.model_value = None
 
@@ -75,6 +76,8 @@ class RepResult:
                 cur.errors[-1][3].append(s[1:])
             elif k == "VL" and cur is not None:
                 cur.value = " ".join(s[1:])
+            elif k == "ZL" and cur is not None:
+                cur.odd_lexemes = int(s[1])
             elif k == "TM" and cur is not None:
                 cur.ms = int(s[1])
         self.verdict = {}
